@@ -41,15 +41,30 @@
 (*       only lose their separator tokens; a separator-only line between   *)
 (*       two comment lines becomes a blank line and the write-back fails   *)
 (*       (finding X04-sort-hidden-separator)                               *)
-(* Exempt = TRUE excuses exactly these two (MC_ListSortImpl*.cfg);         *)
-(* MC_ListSortImpl_find_trail.cfg / _find_hidden.cfg (defect on, Exempt    *)
-(* off) make TLC report ReadTotal / WriteBack: TLC finds both defects;     *)
-(* MC_ListSortImpl_fixed.cfg (defects off, Exempt off) holds.              *)
-(* Negative controls (wrong designs): SortDropsComments -> Refines,        *)
-(* SepAlways ("up" splits at every comma) -> Refines,                      *)
-(* NoNlBeforeCmt (sort forgets the newline in front of the first comment)  *)
-(* -> StillValid, FmtNoTrailSep (formatter without the trailing            *)
-(* separator) -> ShapeOK.                                                  *)
+(* Exempt = TRUE excuses exactly these two.                                *)
+(*                                                                         *)
+(* Configurations (MC_ListSortImpl*.cfg):                                  *)
+(*   _quick         <= 3 words / 7 tokens / 1 comment line x 1 call        *)
+(*   (none)         <= 3 words / 8 tokens / 2 comment lines x 1 call,      *)
+(*                  every renaming of the words, 7 key/reverse pairs       *)
+(*   _two / _deep   2 calls on <= 6 tokens / 3 calls on <= 2 words, 5      *)
+(*                  tokens                                                 *)
+(*   _hidden        comma + uploaders layouts <= 2 words / 10 tokens / 2   *)
+(*                  comment lines (a separator hidden between comments),   *)
+(*                  sort/reformat only; _hidden_edits: the same with the   *)
+(*                  edit calls x 2 calls (1.7 million states, not run by   *)
+(*                  the tiers)                                             *)
+(*   _find_trail / _find_hidden   defect on, Exempt off: TLC reports       *)
+(*                  ReadTotal / WriteBack -- TLC FINDS both defects        *)
+(*   _fixed / _fixed_hidden       defects off, Exempt off: all invariants  *)
+(*                  hold for the repaired design                           *)
+(* Negative controls (wrong designs): SortDropsComments -> Refines         *)
+(* (_neg_drop), SepAlways ("up" splits at every comma) -> Refines          *)
+(* (_neg_sep), NoNlBeforeCmt (sort forgets the newline in front of the     *)
+(* first comment) -> WriteBack (_neg_nl), FmtNoTrailSep (formatter without *)
+(* the trailing separator) -> ShapeOK (_neg_fmt).                          *)
+(* The harness generates the emission configurations (Emit = TRUE, a slice *)
+(* of the layouts chosen by the seed, MinVals).                            *)
 (***************************************************************************)
 EXTENDS ListSort, Json
 
